@@ -423,7 +423,7 @@ func (c *simCluster) executeTrash(s *simSrv, e trashEnt, now time.Time) bool {
 func scenC05(w *vsim.World, spec *vsim.Spec) {
 	c := newSimCluster(w)
 	c.api.ignoreSelect = w.Chance("api returns unselected attributes", 500)
-	genLayout(c, layoutOpts{maxSrvSmall: 4, maxSrvBig: 16, bigChance: 150, classes: true, maxBlocks: 12, maxColls: 6})
+	genLayout(c, layoutOpts{maxSrvSmall: 4, maxSrvBig: 16, bigChance: 150, classes: w.Chance("storage classes in use", 500), maxBlocks: 12, maxColls: 6})
 	c.logLayout()
 	// replication before the sweep, per block and class, over distinct devices
 	classes := c.allClasses()
@@ -505,25 +505,44 @@ func scenC05(w *vsim.World, spec *vsim.Spec) {
 		}
 		return ""
 	}
+	// sigLost classifies a conservation failure by testing hypotheses about what the sweep
+	// must have counted: the class list it was told, replicas outside the class, or one
+	// device counted once per mount view.
+	sigLost := func(hash, cl string, after int) string {
+		if wt := min(desiredTold[hash][cl], before[hash][cl]); after >= wt && desiredTold[hash][cl] != desired[hash][cl] {
+			return "storage_classes_desired-not-selected"
+		}
+		want := min(desired[hash][cl], before[hash][cl])
+		extra := 0
+		for _, d := range c.devs {
+			if d.blocks[hash] != nil && !d.inClass(cl) {
+				extra += d.repl
+			}
+		}
+		if extra > 0 && after+extra >= want {
+			return "replica-outside-class-counted-toward-class"
+		}
+		if c.replicationByViews(hash, cl) >= want {
+			return "shared-device-counted-once-per-mount"
+		}
+		if fmt.Sprint(desired[hash]) != fmt.Sprint(desiredTold[hash]) {
+			return "storage_classes_desired-not-selected"
+		}
+		return ""
+	}
 	// development aid only: VERIF_BALANCE_MASK=sig1,sig2 turns violations of those layout
 	// classes into probes so that the rest of the oracle can be exercised before the
 	// corresponding known-finding entries exist. Never set by registered commands.
-	masked := func(sig string) bool {
-		if sig == "" {
-			return false
-		}
-		for _, m := range strings.Split(os.Getenv("VERIF_BALANCE_MASK"), ",") {
-			if m == sig {
-				w.Probe("masked-" + sig)
-				return true
+	violSig := func(clause, sig, f string, a ...any) {
+		if sig != "" {
+			for _, m := range strings.Split(os.Getenv("VERIF_BALANCE_MASK"), ",") {
+				if m == sig || m == clause+"|"+sig {
+					w.Probe("masked " + clause + " | " + sig)
+					return
+				}
 			}
 		}
-		return false
-	}
-	violSig := func(clause, sig, f string, a ...any) {
-		if !masked(sig) {
-			w.ViolationSig(clause, sig, f, a...)
-		}
+		w.ViolationSig(clause, sig, f, a...)
 	}
 
 	nTrash, nPull := 0, 0
@@ -645,7 +664,7 @@ func scenC05(w *vsim.World, spec *vsim.Spec) {
 				want = before[b.hash][cl]
 			}
 			if after := c.replication(b.hash, cl); after < want {
-				violSig("c05/replication-lost", sigFor(b.hash),
+				violSig("c05/replication-lost", sigLost(b.hash, cl, after),
 					"block %s class %q: desired %d, replication over distinct devices was %d before the sweep and is %d after executing the trash lists with no pull succeeding; holders before: %s",
 					b.hash[:6], cl, desired[b.hash][cl], before[b.hash][cl], after, c.describeHolders(b.hash, held))
 			}
